@@ -219,6 +219,23 @@ func (e *schedEnv) scenario(name string) sched.Scenario {
 					return fmt.Sprintf("sync InsertChain panicked: %v", syncPanic)
 				}
 				_ = syncErr
+				// "after each momentum the pool holds exactly the previously pooled blocks that were not confirmed by it and
+				// still link": X1 was pooled before; whichever momentum won the height, X1 is either confirmed by the chain
+				// the node is on or still pooled (it links to a confirmed frontier both momentums leave untouched)
+				x1 := f.blocks["X1"]
+				confirmed := false
+				if b, err := n.Chain.GetFrontierMomentumStore().GetAccountBlockByHash(x1.Hash); err == nil && b != nil {
+					confirmed = true
+				}
+				pooled := false
+				for _, b := range n.PoolBlocks() {
+					if b.Hash == x1.Hash {
+						pooled = true
+					}
+				}
+				if !confirmed && !pooled {
+					return fmt.Sprintf("block X1 was pooled before the two momentums competed; the node is on momentum %v, which does not confirm X1, and X1 is gone from the pool", n.Frontier().Hash)
+				}
 				return ""
 			})
 		}
@@ -274,7 +291,11 @@ func (e *schedEnv) after(name string, n *vnode.Node, adm map[string]bool, seen *
 		}
 		if extra != nil {
 			if s := extra(); s != "" {
-				r.Violate("C14:sched:"+name+":sync-panic", s, rep)
+				key := "sync-panic"
+				if !strings.Contains(s, "panicked") {
+					key = "pooled-block-lost"
+				}
+				r.Violate("C14:sched:"+name+":"+key, s, rep)
 				return
 			}
 		}
